@@ -45,13 +45,14 @@ PROPS['C15'] = dict(
 )
 PROPS['C18'] = dict(
   level='proof',
-  verus=[dict(unit='bytecode', min_functions=10), dict(unit='peephole', min_functions=8), dict(unit='lines', min_functions=6), dict(unit='pipeline', min_functions=1)],
-  not_decided=['traceback/backtrace assembly from frames, exit-status mapping in Vm::run, exit(n)'],
+  verus=[dict(unit='bytecode', min_functions=10), dict(unit='peephole', min_functions=8), dict(unit='lines', min_functions=6), dict(unit='pipeline', min_functions=1), dict(unit='unwind', min_functions=2)],
+  not_decided=['the text of the traceback (frame_line / error_backtrace strings), exit-status mapping in Vm::run, exit(n)'],
 )
 PROPS['C04'] = dict(
   level='proof',
-  verus=[dict(unit='peephole', min_functions=2), dict(unit='bytecode', min_functions=1), dict(unit='ops', min_functions=6), _findings_variant(['spec:handler_depth_is_live_depth'])],
-  not_decided=['PopHandler emission on every exit path (compiler), Fiber::stack_unwind/finish_unwind (raw frames), native-callback boundary'],
+  verus=[dict(unit='peephole', min_functions=2), dict(unit='bytecode', min_functions=1), dict(unit='ops', min_functions=6), dict(unit='unwind', min_functions=6), _findings_variant(['spec:handler_depth_is_live_depth'])],
+  not_decided=['PopHandler emission on every exit path (compiler)', 'A-hist: the pointers already collected for an error do not reach below the frame now searched (pause_unwind precondition)',
+               'the raw-pointer stores of stack_unwind (ip, stack top, current frame) are one stub (vx/units/unwind/prelude.rs); Vm::stack_unwind / execute loop around it'],
 )
 
 PROPS['C01'] = dict(
@@ -78,7 +79,7 @@ PROPS['C13'] = dict(
 )
 PROPS['C16'] = dict(
   level='proof',
-  verus=[dict(unit='ops', min_functions=40), dict(unit='native', min_functions=4), dict(unit='calls', min_functions=6), dict(unit='ncall', min_functions=3), dict(unit='chanq', min_functions=10)],
+  verus=[dict(unit='ops', min_functions=40), dict(unit='native', min_functions=4), dict(unit='calls', min_functions=6), dict(unit='ncall', min_functions=3), dict(unit='chanq', min_functions=10), dict(unit='unwind', min_functions=6)],
   kani=[dict(crate='value', harnesses=['proofs::o16_f64_cast_positive'], kind='complete', extra=['-Z', 'unstable-options', '--no-overflow-checks'], timeout=600, jobs=1, assumption_ids=['A-kani'])],
   not_decided=['the ~150 native bodies themselves (the signature gate and the fact that call_native runs a body only behind it ARE proved; that each body assumes no more than its declared signature is not), errors during handling; the front end (C15); debug-only assert_roots accounting (R3d)',
                'A-float: axiom_integral_cast_positive used by op_buffered_channel is discharged by the complete Kani harness o16_f64_cast_positive'],
